@@ -827,6 +827,14 @@ class Engine:
                 else:
                     ch = args[0]
                     if not isinstance(ch, SBytes): raise Unsupported("extend with non-bytes")
+                    if z3.is_int_value(z3.simplify(cur.n)) and z3.simplify(cur.n).as_long() == 0:
+                        # extending an empty bytearray: the result has the content of the argument (same view, copied by value)
+                        s.assign(target, SBytes(ch.arr, ch.n, ch.off), st2, ctx); outs.append((st2, NORMAL, None)); continue
+                    if cur.arr.eq(ch.arr):
+                        gap = st2.fork(); gap.pc.append(cur.off + cur.n != ch.off)
+                        if not s.feasible(gap):
+                            # the argument is the slice that directly follows the receiver in the same array: the view just grows
+                            s.assign(target, SBytes(cur.arr, z3.simplify(cur.n + ch.n), cur.off), st2, ctx); outs.append((st2, NORMAL, None)); continue
                     arr2 = fresh("ext", BYTE_ARR); k = z3.Int("k__e"); o = cur.off; n = cur.n
                     st2.pc.append(z3.ForAll([k], z3.Implies(z3.And(o <= k, k < o + n), arr2[k] == cur.arr[k])))
                     st2.pc.append(z3.ForAll([k], z3.Implies(z3.And(0 <= k, k < ch.n), arr2[o + n + k] == ch.at(k))))
@@ -977,9 +985,11 @@ class Engine:
         for n in ast.walk(ast.Module(body=body, type_ignores=[])):
             if isinstance(n, (ast.Assign, ast.AugAssign, ast.AnnAssign)):
                 ts = n.targets if isinstance(n, ast.Assign) else [n.target]
-                for t in ts:
-                    for x in ast.walk(t):
-                        if isinstance(x, ast.Name): names.add(x.id)
+                def tnames(t):
+                    if isinstance(t, ast.Name): names.add(t.id)
+                    elif isinstance(t, (ast.Tuple, ast.List)):
+                        for x in t.elts: tnames(x)
+                for t in ts: tnames(t)
             if isinstance(n, ast.For):
                 for x in ast.walk(n.target):
                     if isinstance(x, ast.Name): names.add(x.id)
